@@ -322,6 +322,16 @@ def task_fn(task: tuple) -> dict:
     return part.out()
 
 
+def replay_case(raw: dict, part: Part) -> None:
+    backends.setup_determinism()
+    backends.sqlite_template()
+    w = build(raw["config"], list(raw["history"]))
+    try:
+        compare(w, part, list(raw["history"]), raw["config"])
+    finally:
+        w.close()
+
+
 def run(tier: str, replay: str | None = None) -> int:
     backends.setup_determinism()
     ctx = Ctx(PID, tier, "model_checking")
